@@ -139,7 +139,7 @@ var kindWeights = []struct {
 
 func pickCaller(r *rand.Rand, cand map[string][]tok, bias string) callerSpec {
 	if bias != "" && len(cand[bias]) > 0 && r.IntN(3) != 0 {
-		return callerSpec{bias, pick(r, cand[bias]...)}
+		return callerSpec{Kind: bias, Tok: pick(r, cand[bias]...)}
 	}
 	total := 0
 	for _, kw := range kindWeights {
@@ -153,11 +153,11 @@ func pickCaller(r *rand.Rand, cand map[string][]tok, bias string) callerSpec {
 			continue
 		}
 		if x < kw.w {
-			return callerSpec{kw.kind, pick(r, cand[kw.kind]...)}
+			return callerSpec{Kind: kw.kind, Tok: pick(r, cand[kw.kind]...)}
 		}
 		x -= kw.w
 	}
-	return callerSpec{"unknown-kid", tok{"x", "zz"}}
+	return callerSpec{Kind: "unknown-kid", Tok: tok{"x", "zz"}}
 }
 
 type phaseOpts struct {
@@ -219,6 +219,11 @@ func genPhase(r *rand.Rand, c0, s int, o phaseOpts) phaseSpec {
 			} else {
 				plans[i].point = pick(r, "before", "racing", "racing")
 			}
+		}
+	}
+	for i := range plans {
+		if plans[i].point != "" && r.IntN(3) == 0 {
+			ps.Callers[i].Deadline = true // this caller's context ends by its deadline instead of cancel()
 		}
 	}
 	order := r.Perm(o.n)
@@ -450,9 +455,9 @@ func enumSpec(n, maxCancel, k int) roundSpec {
 	ps := phaseSpec{Mode: "enum", Shape: sh("ab"), Def: fakejwks.Step{Kind: fakejwks.Deliver}}
 	for i := 0; i < n; i++ {
 		if toks&(1<<i) != 0 {
-			ps.Callers = append(ps.Callers, callerSpec{"unknown-kid", tok{"x", "zz"}})
+			ps.Callers = append(ps.Callers, callerSpec{Kind: "unknown-kid", Tok: tok{"x", "zz"}})
 		} else {
-			ps.Callers = append(ps.Callers, callerSpec{"new", tok{"a", "a"}})
+			ps.Callers = append(ps.Callers, callerSpec{Kind: "new", Tok: tok{"a", "a"}})
 		}
 	}
 	first := fakejwks.Step{Kind: fakejwks.Deliver, Hold: true}
@@ -474,7 +479,7 @@ func enumSpec(n, maxCancel, k int) roundSpec {
 	ps.finish()
 	// a second phase on the same set: whoever is valid must now be served from the cache (or by a fresh download)
 	p2 := phaseSpec{Mode: "enum", Shape: sh("ab"), Def: fakejwks.Step{Kind: fakejwks.Deliver},
-		Callers: []callerSpec{{"cached-or-new", tok{"a", "a"}}, {"unknown-kid", tok{"x", "zz"}}},
+		Callers: []callerSpec{{Kind: "cached-or-new", Tok: tok{"a", "a"}}, {Kind: "unknown-kid", Tok: tok{"x", "zz"}}},
 		Actions: []action{{Op: "arrive", I: 0}, {Op: "arrive", I: 1}}}
 	p2.finish()
 	return roundSpec{Family: "enum", Phases: []phaseSpec{ps, p2}}
